@@ -526,7 +526,7 @@ func (g *caseGen) service(svc *svcInfo, nper int) []*opCase {
 		if m.drivable() {
 			drive = append(drive, m)
 		} else {
-			g.out.Count("case.method_not_driven_underscore_arg")
+			g.out.Count("case.method_not_driven_underscore_member")
 		}
 	}
 	// single calls: every reachable method, several answers
@@ -1050,6 +1050,14 @@ func shrink(b *batch.Built, r *vl.Rng, oc *opCase, ans, msg string) (*opCase, st
 			sb.WriteString(" " + x.text())
 		}
 		c.line = sb.String()
+		for _, x := range calls { // candidates that fail for another, known reason (nil union: D13) are not smaller witnesses
+			if nilUnion(oc.unit.Schema, &idlgen.RType{Kind: idlgen.RStruct, Sidx: x.m.ArgsSidx}, x.args, false) {
+				return c, "", ""
+			}
+			if _, err := refcodec.Encode(oc.unit.Schema, x.m.ArgsSidx, x.args); err != nil {
+				return c, "", ""
+			}
+		}
 		a, err := b.RunLines([]string{c.line})
 		if err != nil || len(a) != 1 {
 			return c, "", ""
